@@ -32,7 +32,7 @@ COMPONENTS = {
 }
 ASSUMPTIONS = [
     "metrics are compared with float64 recomputation at 1e-5 relative (float32 reductions); std accepts either normalisation; a 1-element tensor's std may be nan",
-    "one compiled graph per tracked module: a change of input signature or of grad mode (torch.no_grad) makes TorchDynamo compile a second graph and scales_graph() shows the most recently *compiled* one, which need not be the one that ran last (observed: history [backward run, no_grad run, backward run] reports the no_grad graph); this is noted in DESIGN.md as an observation, the property quantifies over forward-only and forward+backward runs of one graph",
+    "a change of grad mode (torch.no_grad) makes TorchDynamo compile a second graph and scales_graph() shows the most recently *compiled* one, which need not be the one that ran last (observed: history [backward run, no_grad run, backward run] reports the no_grad graph); this is noted in DESIGN.md as an observation, the property quantifies over forward-only and forward+backward runs; a change of batch size (30% of the runs of batch-agnostic programs) is covered: the dynamic-shape graph compiled for the second size serves every later size",
     "the numbers printed by analyse_module carry 3 significant digits: compared at 6e-3 relative",
     "analyse_module leaves .grad populated on parameters and inputs (it calls backward()); logged as an observation, values and gradients *produced* afterwards are what is compared",
     "seeded search: a clean batch is evidence, not proof",
@@ -90,7 +90,7 @@ def generate(seed: int, tier: str, phase: str) -> Dict[str, Any]:
             ops.append({"op": "reset"})
         else:
             ops.append({"op": "run", "mode": k, "k": r.randrange(3), "gseed": r.randrange(4),
-                        "mask": [r.random() < 0.5 for _ in range(3)]})
+                        "mask": [r.random() < 0.5 for _ in range(3)], "bshape": r.random() < 0.3})
     if not any(o["op"] == "run" for o in ops):
         ops.append({"op": "run", "mode": "bwd", "k": 0, "gseed": 0, "mask": [True, True, True]})
     plan["ops"] = ops
@@ -315,6 +315,7 @@ def _track(plan: Dict[str, Any], spec: Dict[str, Any], original: Any, inputs: An
     snap = tw.state_snapshot(original)
     kinds: List[str] = []
     deferred: List[Violation] = []
+    alt: Dict[str, Any] = {"ok": None, "inputs": None}
     for i, op in enumerate(plan["ops"]):
         where = f"after op#{i} {op['op']} program {sig}"
         if op["op"] == "reset":
@@ -328,6 +329,24 @@ def _track(plan: Dict[str, Any], spec: Dict[str, Any], original: Any, inputs: An
             _run_others(plan, op, probe, analyse=False)
             res["opseq"].append("other")
             continue
+        cur_inputs = inputs[op["k"]]
+        if op.get("bshape"):
+            # another batch size (first dimension + 1 on every input of rank >= 2), for programs
+            # that are batch-agnostic: TorchDynamo compiles another graph for the same module
+            if alt["ok"] is None:
+                try:
+                    ov = {inp["name"]: [inp["shape"][0] + 1] + list(inp["shape"][1:]) for inp in spec["inputs"]
+                          if len(inp["shape"]) >= 2}
+                    alt["inputs"] = [_programs.make_inputs(spec, 190 + kk, overrides=ov) for kk in range(3)]
+                    if plan.get("f64"):
+                        alt["inputs"] = [[t.double() if t.is_floating_point() else t for t in ins] for ins in alt["inputs"]]
+                    tw.run(original, original, tw.clone_inputs(alt["inputs"][0]), 0, backward=False)
+                    alt["ok"] = bool(ov)
+                except Exception:
+                    alt["ok"] = False
+            if alt["ok"]:
+                cur_inputs = alt["inputs"][op["k"]]
+                probe("runs_with_another_batch_size")
         mode = op["mode"]
         bwd = mode not in ("fwd", "nograd")
         ng = mode == "nograd"
@@ -336,12 +355,12 @@ def _track(plan: Dict[str, Any], spec: Dict[str, Any], original: Any, inputs: An
         obs["args"], obs["handed_on"], obs["aliased"] = [], {}, []
         g0 = obs["graphs"]
         try:
-            got = tw.run(tracked, tracked, tw.clone_inputs(inputs[op["k"]]), op["gseed"], backward=bwd, out_mask=mask,
+            got = tw.run(tracked, tracked, tw.clone_inputs(cur_inputs), op["gseed"], backward=bwd, out_mask=mask,
                          no_grad=ng)
         except Exception as e:
             raise Violation("observational", "tracked_call_raised", f"{type(e).__name__}: {str(e)[:400]} {where}")
         # (a) purely observational: bit-identical to the unwrapped module
-        want = tw.run(original, original, tw.clone_inputs(inputs[op["k"]]), op["gseed"], backward=bwd, out_mask=mask,
+        want = tw.run(original, original, tw.clone_inputs(cur_inputs), op["gseed"], backward=bwd, out_mask=mask,
                       no_grad=ng)
         d = tw.diff(got, want)
         if d:
@@ -349,7 +368,7 @@ def _track(plan: Dict[str, Any], spec: Dict[str, Any], original: Any, inputs: An
             vals = tw.diff({"outs": got["outs"]}, {"outs": want["outs"]}, tol or 1e-5)
             grs = None if vals else (not tw.grads_close_globally(got, want, tol or 1e-5))
             if (vals or grs) and tw.within_rounding_band(
-                    got, want, lambda j: _programs.Reference(spec, jitter=j), original, inputs[op["k"]], op["gseed"],
+                    got, want, lambda j: _programs.Reference(spec, jitter=j), original, cur_inputs, op["gseed"],
                     bwd, no_grad=ng, out_mask=mask):
                 # the program itself amplifies rounding noise: still only a last-bits difference
                 vals = grs = None
